@@ -17,6 +17,9 @@ type ConsSchema struct {
 	Checks  [][2]int `json:"checks,omitempty"` // CHECK (col >= k)
 	Uniques [][]int  `json:"uniques,omitempty"`
 	FKs     []int    `json:"fks,omitempty"`
+	// PlainIx: a non-unique index `ix1 (c1)` (and `ix02 (c0,c2)`) exists from the start; a branch may drop it
+	// and re-add it under the same name as UNIQUE (or change a unique index's COMMENT)
+	PlainIx bool `json:"plainix,omitempty"`
 }
 
 const consRule = "seeded programs over parent p(pk,v) / child c(pk,c0,c1,c2) with random subsets of NOT NULL, CHECK (col>=k), UNIQUE (single and two-column, NULLs distinct) and FOREIGN KEY constraints: single-session DML (also run on the Lean model), interleaved two-session transactions whose individually valid changes collide (same unique value under different keys, child inserted vs parent deleted), branch merges with violations; after every statement the committed working root and HEAD are dumped and every constraint is re-evaluated independently; violating rows must be listed in dolt_constraint_violations_<table>; non-trivial = at least one rejected statement/commit or recorded violation; distinct by program text"
@@ -43,6 +46,9 @@ func (cs ConsSchema) createChild() string {
 			ns = append(ns, fmt.Sprintf("c%d", c))
 		}
 		cols = append(cols, fmt.Sprintf("UNIQUE KEY uq%d (%s)", i, strings.Join(ns, ",")))
+	}
+	if cs.PlainIx {
+		cols = append(cols, "KEY ix1 (c1)", "KEY ix02 (c0,c2)")
 	}
 	for i, f := range cs.FKs {
 		cols = append(cols, fmt.Sprintf("KEY fki%d (c%d)", i, f), fmt.Sprintf("CONSTRAINT fk%d FOREIGN KEY (c%d) REFERENCES p(pk)", i, f))
@@ -90,6 +96,41 @@ func (cs ConsSchema) withNotNull(cols []int) ConsSchema {
 	c := cs
 	c.NotNull = cols
 	return c
+}
+
+// uniqueKeys reads the UNIQUE KEY column lists of table c (working set or HEAD) from SHOW CREATE TABLE:
+// indexes are redefined by ALTERs on a branch and reach main through merges.
+func uniqueKeys(obs *sqleng.Session, asof string) [][]int {
+	r := obs.Exec("SHOW CREATE TABLE c" + asof)
+	var out [][]int
+	if r.Err != nil || len(r.Rows) == 0 || len(r.Rows[0]) < 2 {
+		return out
+	}
+	ddl, err := strconv.Unquote(r.Rows[0][1])
+	if err != nil {
+		ddl = r.Rows[0][1]
+	}
+	for _, line := range strings.Split(ddl, "\n") {
+		line = strings.TrimSpace(line)
+		if !strings.HasPrefix(line, "UNIQUE KEY") {
+			continue
+		}
+		i, j := strings.Index(line, "("), strings.Index(line, ")")
+		if i < 0 || j < i {
+			continue
+		}
+		var cols []int
+		for _, c := range strings.Split(line[i+1:j], ",") {
+			c = strings.Trim(strings.TrimSpace(c), "`")
+			if len(c) == 2 && c[0] == 'c' {
+				cols = append(cols, int(c[1]-'0'))
+			}
+		}
+		if len(cols) > 0 {
+			out = append(out, cols)
+		}
+	}
+	return out
 }
 
 // notNullCols reads the NOT NULL value columns of table c in the working set (asof = "") or at HEAD
@@ -224,6 +265,18 @@ func consWitnesses() []*Program {
 		mk(ConsSchema{Uniques: [][]int{{1}}}, x(2, "CALL dolt_checkout('br')"), x(2, "INSERT INTO c VALUES (1,0,7,0)"), x(2, "CALL dolt_commit('-Am','b')"), x(2, "CALL dolt_checkout('main')"), x(2, "INSERT INTO c VALUES (2,0,7,0)"), x(2, "CALL dolt_commit('-Am','m')"), x(2, "CALL dolt_merge('br')")),
 		// branch merge: child added on one branch, parent deleted on the other
 		mk(ConsSchema{FKs: []int{2}}, x(2, "INSERT INTO p VALUES (1,1)"), x(2, "CALL dolt_commit('-Am','p')"), x(2, "CALL dolt_checkout('br')"), x(2, "CALL dolt_merge('main')"), x(2, "INSERT INTO c VALUES (1,0,0,1)"), x(2, "CALL dolt_commit('-Am','b')"), x(2, "CALL dolt_checkout('main')"), x(2, "DELETE FROM p WHERE pk=1"), x(2, "CALL dolt_commit('-Am','m')"), x(2, "CALL dolt_merge('br')")),
+		// the RIGHT side re-adds an existing index as UNIQUE; a left row and a right row collide only after the merge
+		mk(ConsSchema{PlainIx: true}, x(2, "INSERT INTO c VALUES (1,0,1,0)"), x(2, "CALL dolt_commit('-Am','base')"), x(2, "CALL dolt_checkout('br')"), x(2, "CALL dolt_merge('main')"),
+			x(2, "ALTER TABLE c DROP INDEX ix1"), x(2, "ALTER TABLE c ADD UNIQUE INDEX ix1 (c1)"), x(2, "INSERT INTO c VALUES (2,0,5,0)"), x(2, "CALL dolt_commit('-Am','b')"),
+			x(2, "CALL dolt_checkout('main')"), x(2, "INSERT INTO c VALUES (3,0,5,0)"), x(2, "CALL dolt_commit('-Am','m')"), x(2, "CALL dolt_merge('br')")),
+		// the same with two LEFT rows colliding (allowed on the left, where the index is not unique)
+		mk(ConsSchema{PlainIx: true}, x(2, "INSERT INTO c VALUES (1,0,1,0)"), x(2, "CALL dolt_commit('-Am','base')"), x(2, "CALL dolt_checkout('br')"), x(2, "CALL dolt_merge('main')"),
+			x(2, "ALTER TABLE c DROP INDEX ix1"), x(2, "ALTER TABLE c ADD UNIQUE INDEX ix1 (c1)"), x(2, "CALL dolt_commit('-Am','b')"),
+			x(2, "CALL dolt_checkout('main')"), x(2, "INSERT INTO c VALUES (3,0,5,0)"), x(2, "INSERT INTO c VALUES (4,0,5,0)"), x(2, "CALL dolt_commit('-Am','m')"), x(2, "CALL dolt_merge('br')")),
+		// a UNIQUE index whose COMMENT changed on the right side
+		mk(ConsSchema{Uniques: [][]int{{1}}}, x(2, "INSERT INTO c VALUES (1,0,1,0)"), x(2, "CALL dolt_commit('-Am','base')"), x(2, "CALL dolt_checkout('br')"), x(2, "CALL dolt_merge('main')"),
+			x(2, "ALTER TABLE c DROP INDEX uq0"), x(2, "ALTER TABLE c ADD UNIQUE INDEX uq0 (c1) COMMENT 'v2'"), x(2, "INSERT INTO c VALUES (2,0,5,0)"), x(2, "CALL dolt_commit('-Am','b')"),
+			x(2, "CALL dolt_checkout('main')"), x(2, "INSERT INTO c VALUES (3,0,5,0)"), x(2, "CALL dolt_commit('-Am','m')"), x(2, "CALL dolt_merge('br')")),
 		// schema-changing merge: br makes c1 NOT NULL, main inserts a row with c1 NULL
 		mk(ConsSchema{}, x(2, "INSERT INTO c VALUES (1,0,1,0)"), x(2, "CALL dolt_commit('-Am','base')"), x(2, "CALL dolt_checkout('br')"), x(2, "CALL dolt_merge('main')"), x(2, "ALTER TABLE c MODIFY c1 int NOT NULL"), x(2, "CALL dolt_commit('-Am','b')"), x(2, "CALL dolt_checkout('main')"), x(2, "INSERT INTO c VALUES (2,0,NULL,0)"), x(2, "CALL dolt_commit('-Am','m')"), x(2, "CALL dolt_merge('br')")),
 		// the other direction: main makes c1 NOT NULL, br inserts the NULL row, br is merged into main
@@ -250,6 +303,7 @@ func genConsProgram(r *hx.Rng) *Program {
 	if r.Chance(2, 3) {
 		cs.FKs = []int{2}
 	}
+	cs.PlainIx = r.Chance(1, 2)
 	sc := &SchemaCase{Modelled: r.Chance(1, 3), Cons: cs}
 	p := &Program{Mode: "cons", NSess: 3, Schema: sc}
 	n := r.Range(15, 40)
@@ -287,6 +341,17 @@ func genConsProgram(r *hx.Rng) *Program {
 		case x < 42:
 			p.Stmts = append(p.Stmts, XStmt{S: s, SQL: "CALL dolt_commit('-Am','c')"})
 			open[s] = false
+		case x < 49 && x >= 46 && cs.PlainIx && !open[0] && !open[1]:
+			// an index is dropped and re-added under the same name, UNIQUE or not, on whatever branch session 2 is on
+			ix, cols := "ix1", "c1"
+			if r.Chance(1, 3) {
+				ix, cols = "ix02", "c0,c2"
+			}
+			u := ""
+			if r.Chance(2, 3) {
+				u = "UNIQUE "
+			}
+			p.Stmts = append(p.Stmts, XStmt{S: 2, SQL: "ALTER TABLE c DROP INDEX " + ix}, XStmt{S: 2, SQL: fmt.Sprintf("ALTER TABLE c ADD %sINDEX %s (%s)", u, ix, cols)})
 		case x < 46 && !open[0] && !open[1]:
 			// schema change on whatever branch session 2 is on: a column becomes NOT NULL / nullable again
 			col := r.Intn(3)
@@ -393,6 +458,7 @@ func (h *H) runCons(p *Program) {
 			rep.Hit("cons:roots-evaluated")
 			if prop == "C24" {
 				cur := cs.withNotNull(notNullCols(obs, asof))
+				cur.Uniques = uniqueKeys(obs, asof)
 				if os.Getenv("CONSDEBUG") != "" {
 					fmt.Fprintf(os.Stderr, "DBG err=%v\n", res.Err)
 					fmt.Fprintf(os.Stderr, "DBG stmt %d s%d %q class=%s asof=%q notnull=%v p=%s c=%s recorded=%v\n", idx, st.S, st.SQL, class, asof, cur.NotNull, pt.Dump(), ct.Dump(), recorded)
